@@ -375,6 +375,12 @@ def check_bad_style(info: Info, start, add_self, title):
 LETTERS = "abcdefgh"
 
 
+def spec_parent_label(spec, i):
+    """label of node i's parent; the tree name 'T' for top-level nodes"""
+    p = spec.nodes[i][0]
+    return "T" if p == -1 else spec.nodes[p][1]
+
+
 def shape_specs(n_max: int, n_min: int = 0):
     """Per ordered forest: distinct labels; labels by sibling position (clones across parents);
     a typed tree with alternating kinds."""
@@ -451,10 +457,12 @@ def run(prop: str, tier: str, only=None) -> Result:
     total = Result(prop)
     n_full = 5 if tier == "quick" else 6
     specs = shape_specs(n_full)
+    # equal data under distinct data_ids (possibly as siblings), nested clones (a[a[..]]) and a top node named like the tree
+    specs += list(gen.eqpair_specs(4)) + [s for s in gen.plain_specs(4, min_n=2, alphabet=("a", "T")) if any(r[1] == spec_parent_label(s, i) for i, r in enumerate(s.nodes))]
     total.merge(parallel(_chunk, specs, prop, prop=prop))
-    per = f"every style of CONNECTORS ({len(CONNECTORS)}) + default + 'list' + {len(CUSTOM_STYLES)} custom 4-/6-tuples, title in {{None, False, text, True}} (Tree) / add_self on/off (Node), repr in {{default, template, callable}}, join in {{'\\n', ', '}}"
+    per = f"every style of CONNECTORS ({len(CONNECTORS)}) + default + 'list' + {len(CUSTOM_STYLES)} custom 4-/6-tuples, title in {{None, False, text, True}} (Tree) / add_self on/off (Node), repr in {{default, template, callable, ''}}, join in {{'\\n', ', ', ''}}"
     total.bounds["Tree.format / Node.format / format_iter"] = (
-        f"all ordered forests with <= {n_full} nodes (distinct labels; clone labelling; typed), the Tree and every start node, {per}; "
+        f"all ordered forests with <= {n_full} nodes (distinct labels; clone labelling; typed) + equal data under distinct ids and node == parent / tree-name labels <= 4 nodes, the Tree and every start node, {per}; "
         "decoder on template repr; invalid style name / tuple length"
     )
     if tier != "quick":
